@@ -102,6 +102,7 @@ func (e *Eng) obligations() {
 	e.apiOutcome()
 	e.readerLineTail()
 	e.modeFlag()
+	e.poolPutOnce()
 
 	// ---- C16: who reads Message
 	e.messageReaders()
